@@ -138,6 +138,15 @@ type fnInfo struct {
 	oracles string // extra leading arguments inside the section ("" : none)
 }
 
+// checked mode (-checked): every function additionally returns, as its LAST result, a boolean that is true iff no
+// index or slice expression evaluated along the way was out of range (Go would have panicked otherwise). The flag is
+// one more variable (`_chk`) threaded through statements, loops and calls; calls of translated functions are hoisted
+// out of expressions.
+var checked bool
+var prefix = "go_"
+
+const chkVar = "_chk"
+
 var funcs = map[string]*fnInfo{}   // Go name -> info (translated so far, in this package)
 var consts = map[string][2]string{} // Go const/var name -> (Gallina term, kind)
 
@@ -151,7 +160,34 @@ type tr struct {
 	depth   int
 	hasLoop bool
 	usesOracles bool
+	pending []string // checked mode: hoisted calls to emit before the current statement
+	guards  []string // checked mode: bound checks of the expressions of the current statement
+	tmp     int
 }
+
+func (t *tr) guard(g string) {
+	if checked {
+		t.guards = append(t.guards, g)
+	}
+}
+
+// flush returns what checked mode emits before the current statement (hoisted calls, then the flag update)
+func (t *tr) flush() string {
+	if !checked {
+		return ""
+	}
+	out := ""
+	for _, p := range t.pending {
+		out += p + "\n" + t.ind()
+	}
+	if len(t.guards) > 0 {
+		out += "let " + v(chkVar) + " := " + v(chkVar) + " && " + strings.Join(t.guards, " && ") + " in\n" + t.ind()
+	}
+	t.pending, t.guards = nil, nil
+	return out
+}
+
+func inRange(i, l string) string { return "(in_range " + i + " (length " + l + "))" }
 
 type loopCtx struct {
 	lv   []string
@@ -400,7 +436,9 @@ func (t *tr) expr(e ast.Expr) string {
 		return t.binary(e)
 	case *ast.IndexExpr:
 		if t.kind(e.X) == "str" {
-			return "(nth (Z.to_nat " + t.expr(e.Index) + ") " + t.expr(e.X) + " 0%N)"
+			ix, xx := t.expr(e.Index), t.expr(e.X)
+			t.guard(inRange(ix, xx))
+			return "(nth (Z.to_nat " + ix + ") " + xx + " 0%N)"
 		}
 		fail(e, "index expression %s", src(e))
 	case *ast.SliceExpr:
@@ -410,11 +448,17 @@ func (t *tr) expr(e ast.Expr) string {
 		x := t.expr(e.X)
 		switch {
 		case e.Low != nil && e.High != nil:
-			return "(slice3 " + x + " " + t.expr(e.Low) + " " + t.expr(e.High) + ")"
+			lo, hi := t.expr(e.Low), t.expr(e.High)
+			t.guard("(slice_ok " + lo + " " + hi + " (length " + x + "))")
+			return "(slice3 " + x + " " + lo + " " + hi + ")"
 		case e.Low != nil:
-			return "(skipn (Z.to_nat " + t.expr(e.Low) + ") " + x + ")"
+			lo := t.expr(e.Low)
+			t.guard("(slice_ok " + lo + " (Z.of_nat (length " + x + ")) (length " + x + "))")
+			return "(skipn (Z.to_nat " + lo + ") " + x + ")"
 		case e.High != nil:
-			return "(firstn (Z.to_nat " + t.expr(e.High) + ") " + x + ")"
+			hi := t.expr(e.High)
+			t.guard("(slice_ok 0%Z " + hi + " (length " + x + "))")
+			return "(firstn (Z.to_nat " + hi + ") " + x + ")"
 		}
 		return x
 	case *ast.CompositeLit:
@@ -475,13 +519,26 @@ func (t *tr) binary(e *ast.BinaryExpr) string {
 	case token.MUL:
 		return "(" + t.intOperand(e.X) + " * " + t.intOperand(e.Y) + ")%Z"
 	}
-	a, b := t.expr(e.X), t.expr(e.Y)
-	switch e.Op {
-	case token.LAND:
-		return "(" + a + " && " + b + ")"
-	case token.LOR:
+	if e.Op == token.LAND || e.Op == token.LOR { // the right operand's bounds are checked only when it is evaluated
+		a := t.expr(e.X)
+		saved := t.guards
+		t.guards = nil
+		b := t.expr(e.Y)
+		inner := t.guards
+		t.guards = saved
+		if len(inner) > 0 {
+			if e.Op == token.LAND {
+				t.guard("(implb " + a + " (" + strings.Join(inner, " && ") + "))")
+			} else {
+				t.guard("(" + a + " || (" + strings.Join(inner, " && ") + "))")
+			}
+		}
+		if e.Op == token.LAND {
+			return "(" + a + " && " + b + ")"
+		}
 		return "(" + a + " || " + b + ")"
 	}
+	a, b := t.expr(e.X), t.expr(e.Y)
 	ka, kb := t.kind(e.X), t.kind(e.Y)
 	k := ka
 	if k == "" {
@@ -575,11 +632,11 @@ func (t *tr) call(c *ast.CallExpr) string {
 		}
 	}
 	if f, ok := funcs[t.pkg+"."+name]; ok && !f.loopy && len(f.results) == 1 && f.recv == "" {
-		s := "(" + f.gname
+		s := "(" + f.gname + f.oraclesIn(t)
 		for i := range c.Args {
 			s += " " + arg(i)
 		}
-		return s + ")"
+		return t.hoist(s + ")")
 	}
 	if se, ok := c.Fun.(*ast.SelectorExpr); ok {
 		x := ident(se.X)
@@ -596,7 +653,7 @@ func (t *tr) call(c *ast.CallExpr) string {
 				for i := range c.Args {
 					s += " " + arg(i)
 				}
-				return s + ")"
+				return t.hoist(s + ")")
 			}
 		}
 		if t.kinds[x] == "ip" && len(c.Args) == 0 {
@@ -622,6 +679,8 @@ func (t *tr) call(c *ast.CallExpr) string {
 			}
 		case "IndexAfter":
 			if t.kinds[x] == "set" && len(c.Args) == 2 {
+				// SortedSet.IndexAfter slices set.elems[n+1:]: its documented precondition n < Size is a bounds check
+				t.guard("(slice_ok (" + arg(0) + " + 1)%Z (Z.of_nat (length (elems " + v(x) + "))) (length (elems " + v(x) + ")))")
 				return "(index_after " + v(x) + " " + arg(0) + " " + arg(1) + ")"
 			}
 		}
@@ -629,6 +688,20 @@ func (t *tr) call(c *ast.CallExpr) string {
 	fail(c, "%s: call %s", t.fn, src(c))
 	return ""
 }
+
+// hoist: in checked mode a translated callee also returns its flag, so the call is bound before the statement
+func (t *tr) hoist(app string) string {
+	if !checked {
+		return app
+	}
+	t.tmp++
+	h, hk := "h_"+strconv.Itoa(t.tmp), "hk_"+strconv.Itoa(t.tmp)
+	t.pending = append(t.pending, "let '("+h+", "+hk+") := "+app+" in")
+	t.guard(hk)
+	return h
+}
+
+func (f *fnInfo) oraclesIn(t *tr) string { return "" }
 
 // ---- statements ----
 
@@ -726,10 +799,21 @@ func (t *tr) assigned(list []ast.Stmt) []string {
 		})
 	}
 	var out []string
+	if checked {
+		set[chkVar] = true
+	}
 	for _, n := range t.scope {
 		if set[n] {
 			out = append(out, n)
 		}
+	}
+	return out
+}
+
+func mapv(names []string) []string {
+	out := make([]string, len(names))
+	for i, n := range names {
+		out[i] = v(n)
 	}
 	return out
 }
@@ -794,6 +878,9 @@ func (t *tr) retValues(s *ast.ReturnStmt) string {
 	for i, r := range s.Results {
 		parts[i] = t.expr(r)
 	}
+	if checked {
+		parts = append(parts, v(chkVar))
+	}
 	if len(parts) == 1 {
 		return parts[0]
 	}
@@ -829,18 +916,32 @@ func (t *tr) seq(list []ast.Stmt, end string) string {
 		return end
 	}
 	s, rest := list[0], list[1:]
-	cont := func(line string) string { return line + "\n" + t.ind() + t.seq(rest, end) }
+	cont := func(line string) string { return t.flush() + line + "\n" + t.ind() + t.seq(rest, end) }
 	switch s := s.(type) {
 	case *ast.ReturnStmt:
 		if len(s.Results) == 1 && len(t.info.results) > 1 {
 			if f, call, ok := t.loopyCall(s.Results[0]); ok && len(f.results) == len(t.info.results) {
+				pre := t.flush()
+				if checked { // return f(x): the callee's flag joins ours
+					rs := make([]string, len(f.results))
+					for i := range rs {
+						rs[i] = "r_" + strconv.Itoa(i)
+					}
+					pat := "(" + strings.Join(rs, ", ") + ", r_chk)"
+					val := "(" + strings.Join(rs, ", ") + ", " + v(chkVar) + " && r_chk)"
+					if f.loopy {
+						return pre + "match " + call + " with None => " + t.kExh() + " | Some " + pat + " => " + t.kRet(val) + " end"
+					}
+					return pre + "let '" + pat + " := " + call + " in " + t.kRet(val)
+				}
 				if f.loopy {
 					return "match " + call + " with None => " + t.kExh() + " | Some r => " + t.kRet("r") + " end"
 				}
 				return t.kRet("(" + call + ")")
 			}
 		}
-		return t.kRet(t.retValues(s))
+		rv := t.retValues(s)
+		return t.flush() + t.kRet(rv)
 	case *ast.BranchStmt:
 		if len(t.loop) == 0 || s.Label != nil {
 			fail(s, "branch statement %s", src(s))
@@ -873,7 +974,8 @@ func (t *tr) seq(list []ast.Stmt, end string) string {
 				case gd.Tok == token.VAR && i < len(vs.Values):
 					k := t.kind(vs.Values[i])
 					t.declare(n.Name, k)
-					out += "let " + v(n.Name) + " := " + t.expr(vs.Values[i]) + " in\n" + t.ind()
+					val := t.expr(vs.Values[i])
+					out += t.flush() + "let " + v(n.Name) + " := " + val + " in\n" + t.ind()
 				case gd.Tok == token.VAR && vs.Type != nil:
 					k := kindOfType(src(vs.Type))
 					z, ok := zeroOfKind[k]
@@ -912,7 +1014,7 @@ func (t *tr) seq(list []ast.Stmt, end string) string {
 }
 
 func (t *tr) assign(s *ast.AssignStmt, rest []ast.Stmt, end string) string {
-	cont := func(line string) string { return line + "\n" + t.ind() + t.seq(rest, end) }
+	cont := func(line string) string { return t.flush() + line + "\n" + t.ind() + t.seq(rest, end) }
 	if len(s.Rhs) != 1 {
 		fail(s, "parallel assignment")
 	}
@@ -934,6 +1036,10 @@ func (t *tr) assign(s *ast.AssignStmt, rest []ast.Stmt, end string) string {
 		}
 	}
 	if len(names) == 1 && names[0] == "_" { // _ = str[i:end]: a bounds-check hint
+		if checked {
+			_ = t.expr(rhs)
+			return t.flush() + t.seq(rest, end)
+		}
 		return t.seq(rest, end)
 	}
 	if s.Tok == token.ADD_ASSIGN && len(names) == 1 && t.kinds[names[0]] == "int" {
@@ -999,13 +1105,20 @@ func (t *tr) assign(s *ast.AssignStmt, rest []ast.Stmt, end string) string {
 	}
 	if f, call, ok := t.loopyCall(rhs); ok && len(f.results) == len(names) {
 		bind(f.results)
-		if f.loopy {
-			t.depth++
-			r := t.seq(rest, end)
-			t.depth--
-			return "match " + call + " with\n" + t.ind() + "| None => " + t.kExh() + "\n" + t.ind() + "| Some " + strings.TrimPrefix(pat(), "'") + " =>\n" + t.ind() + "  " + r + "\n" + t.ind() + "end"
+		pt := pat()
+		post := ""
+		if checked {
+			pt = "'(" + strings.Join(append(mapv(names), "r_chk"), ", ") + ")"
+			post = "let " + v(chkVar) + " := " + v(chkVar) + " && r_chk in\n" + t.ind()
 		}
-		return cont("let " + pat() + " := " + call + " in")
+		if f.loopy {
+			pre := t.flush()
+			t.depth++
+			r := post + t.seq(rest, end)
+			t.depth--
+			return pre + "match " + call + " with\n" + t.ind() + "| None => " + t.kExh() + "\n" + t.ind() + "| Some " + strings.TrimPrefix(pt, "'") + " =>\n" + t.ind() + "  " + r + "\n" + t.ind() + "end"
+		}
+		return t.flush() + "let " + pt + " := " + call + " in\n" + t.ind() + post + t.seq(rest, end)
 	}
 	if len(names) != 1 {
 		fail(s, "%s: assignment %s", t.fn, src(s))
@@ -1039,15 +1152,17 @@ func (t *tr) ifStmt(s *ast.IfStmt, rest []ast.Stmt, end string) string {
 		case as.Tok == token.DEFINE && len(as.Lhs) == 1:
 			val := t.expr(as.Rhs[0])
 			t.declare(ident(as.Lhs[0]), t.kind(as.Rhs[0]))
-			pre = "let " + v(ident(as.Lhs[0])) + " := " + val + " in\n" + t.ind()
+			pre = t.flush() + "let " + v(ident(as.Lhs[0])) + " := " + val + " in\n" + t.ind()
 		case as.Tok == token.ASSIGN && len(as.Lhs) == 2 && isCall && src(c.Fun) == "strings.CutPrefix" && len(c.Args) == 2 &&
 			t.kinds[ident(as.Lhs[0])] == "str" && t.kinds[ident(as.Lhs[1])] == "bool":
-			pre = "let '(" + v(ident(as.Lhs[0])) + ", " + v(ident(as.Lhs[1])) + ") := strings_CutPrefix " + t.expr(c.Args[0]) + " " + t.expr(c.Args[1]) + " in\n" + t.ind()
+			cp := "strings_CutPrefix " + t.expr(c.Args[0]) + " " + t.expr(c.Args[1])
+			pre = t.flush() + "let '(" + v(ident(as.Lhs[0])) + ", " + v(ident(as.Lhs[1])) + ") := " + cp + " in\n" + t.ind()
 		default:
 			fail(s, "if with an init statement %s", src(s.Init))
 		}
 	}
 	cond := t.expr(s.Cond)
+	pre += t.flush()
 	scope1, kinds1 := t.snapshot()
 	body := &ast.BlockStmt{List: append(append([]ast.Stmt{}, s.Body.List...), els...)}
 	if !mentions(body, "return", "continue", "break") {
@@ -1105,6 +1220,9 @@ func (t *tr) resultType() string {
 	for i, k := range t.info.results {
 		ts[i] = coqType[k]
 	}
+	if checked {
+		ts = append(ts, "bool")
+	}
 	return "(" + strings.Join(ts, " * ") + ")"
 }
 
@@ -1123,7 +1241,7 @@ func (t *tr) forStmt(s *ast.ForStmt, rest []ast.Stmt, end string) string {
 		}
 		val := t.expr(as.Rhs[0])
 		t.declare(ident(as.Lhs[0]), t.kind(as.Rhs[0]))
-		pre = "let " + v(ident(as.Lhs[0])) + " := " + val + " in\n" + t.ind()
+		pre = t.flush() + "let " + v(ident(as.Lhs[0])) + " := " + val + " in\n" + t.ind()
 	}
 	var bodyStmts []ast.Stmt
 	bodyStmts = append(bodyStmts, s.Body.List...)
@@ -1135,6 +1253,7 @@ func (t *tr) forStmt(s *ast.ForStmt, rest []ast.Stmt, end string) string {
 	lv := t.assigned(lvSrc)
 	fuel := ""
 	condS := "true"
+	condPre := ""
 	switch {
 	case s.Cond == nil:
 		m, ok := infiniteLoopMeasure[t.fn]
@@ -1144,6 +1263,7 @@ func (t *tr) forStmt(s *ast.ForStmt, rest []ast.Stmt, end string) string {
 		fuel = "(S (length " + v(m) + "))"
 	default:
 		condS = t.expr(s.Cond)
+		condPre = t.flush() // the condition's bounds are checked inside the loop, on every evaluation
 		be, ok := s.Cond.(*ast.BinaryExpr)
 		switch {
 		case ok && be.Op == token.LSS && t.kind(be.X) == "int" && s.Post != nil && src(s.Post) == ident(be.X)+"++":
@@ -1164,6 +1284,7 @@ func (t *tr) forStmt(s *ast.ForStmt, rest []ast.Stmt, end string) string {
 			fail(s, "loop condition %s", src(s.Cond))
 		}
 	}
+	t.guards, t.pending = nil, nil // the fuel expressions above are not evaluated by Go
 	post := ""
 	if s.Post != nil {
 		inc, ok := s.Post.(*ast.IncDecStmt)
@@ -1184,7 +1305,7 @@ func (t *tr) forStmt(s *ast.ForStmt, rest []ast.Stmt, end string) string {
 	t.depth--
 	t.restore(scope0, kinds0)
 	// re-declare loop-carried variables' kinds are unchanged; rest was translated with them in scope
-	return pre + "match loop_n (S := " + t.stateType(lv) + ") (R := " + t.resultType() + ") " + fuel + " (fun " + funPat(lv) + " =>\n" + t.ind() + "    if " + condS + " then (\n" + t.ind() + "      " + body + ")\n" + t.ind() + "    else (Brk " + tuple(lv) + ")) " + tuple(lv) + " with\n" +
+	return pre + "match loop_n (S := " + t.stateType(lv) + ") (R := " + t.resultType() + ") " + fuel + " (fun " + funPat(lv) + " =>\n" + t.ind() + "    " + condPre + "if " + condS + " then (\n" + t.ind() + "      " + body + ")\n" + t.ind() + "    else (Brk " + tuple(lv) + ")) " + tuple(lv) + " with\n" +
 		t.ind() + "| Done " + strings.TrimPrefix(funPat(lv), "'") + " =>\n" + t.ind() + "  " + after + "\n" +
 		t.ind() + "| Returned r => " + t.kRet("r") + "\n" + t.ind() + "| Exhausted => " + t.kExh() + "\n" + t.ind() + "end"
 }
@@ -1197,6 +1318,7 @@ func (t *tr) rangeStmt(s *ast.RangeStmt, rest []ast.Stmt, end string) string {
 	scope0, kinds0 := t.snapshot()
 	lv := t.assigned(s.Body.List)
 	xs := t.expr(s.X)
+	rpre := t.flush()
 	t.declare(ident(s.Value), "str")
 	t.loop = append(t.loop, loopCtx{lv: lv})
 	t.depth += 2
@@ -1207,7 +1329,7 @@ func (t *tr) rangeStmt(s *ast.RangeStmt, rest []ast.Stmt, end string) string {
 	t.depth++
 	after := t.seq(rest, end)
 	t.depth--
-	return "match loop_list (S := " + t.stateType(lv) + ") (R := " + t.resultType() + ") " + xs + " (fun " + funPat(lv) + " " + v(ident(s.Value)) + " =>\n" + t.ind() + "      " + body + ") " + tuple(lv) + " with\n" +
+	return rpre + "match loop_list (S := " + t.stateType(lv) + ") (R := " + t.resultType() + ") " + xs + " (fun " + funPat(lv) + " " + v(ident(s.Value)) + " =>\n" + t.ind() + "      " + body + ") " + tuple(lv) + " with\n" +
 		t.ind() + "| Done " + strings.TrimPrefix(funPat(lv), "'") + " =>\n" + t.ind() + "  " + after + "\n" +
 		t.ind() + "| Returned r => " + t.kRet("r") + "\n" + t.ind() + "| Exhausted => " + t.kExh() + "\n" + t.ind() + "end"
 }
@@ -1293,11 +1415,18 @@ func translate(pkg string, fd *ast.FuncDecl, gname string) string {
 	for _, n := range named {
 		pre += "let " + v(n) + " := " + zeroOfKind[t.kinds[n]] + " in\n  "
 	}
+	if checked {
+		t.declare(chkVar, "bool")
+		pre += "let " + v(chkVar) + " := true in\n  "
+	}
 	body := t.seq(fd.Body.List, "")
 	funcs[pkg+"."+name] = info
 	rts := make([]string, len(info.results))
 	for i, k := range info.results {
 		rts[i] = coqType[k]
+	}
+	if checked {
+		rts = append(rts, "bool")
 	}
 	rt := strings.Join(rts, " * ")
 	if info.loopy {
@@ -1405,13 +1534,24 @@ type job struct {
 }
 
 func main() {
-	if len(os.Args) != 4 {
-		fmt.Fprintln(os.Stderr, "usage: genloop <repo> <LoopSrc.v> <PatSrc.v>")
+	args := os.Args[1:]
+	if len(args) > 0 && args[0] == "-checked" {
+		checked, prefix = true, "chk_"
+		args = args[1:]
+	}
+	if len(args) != 3 {
+		fmt.Fprintln(os.Stderr, "usage: genloop [-checked] <repo> <LoopSrc.v|LoopChk.v> <PatSrc.v|PatChk.v>")
 		os.Exit(2)
 	}
-	repo, out, outPat := os.Args[1], os.Args[2], os.Args[3]
+	repo, out, outPat := args[0], args[1], args[2]
+	gn := func(n string) string { return prefix + strings.TrimPrefix(n, "go_") }
 	header := "(* GENERATED by tools/genloop from internal/origins/origins.go and internal/headers/{acrh,ows}.go on every run -- do not edit. *)\n" +
 		"Require Import Base.Bytes Gen.Tables Model.Util Model.Headers Model.Origins Model.UtilRt Gen.UtilSrc Model.LoopRt.\nOpen Scope bool_scope.\n\n"
+	if checked {
+		header = "(* GENERATED by tools/genloop -checked from internal/origins/origins.go and internal/headers/{acrh,ows}.go on every run -- do not edit.\n" +
+			"   Every function also returns a flag that is true iff no index or slice expression evaluated on the way was out of range. *)\n" +
+			"Require Import Base.Bytes Gen.Tables Model.Util Model.Headers Model.Origins Model.UtilRt Gen.UtilSrc Model.LoopRt Model.RadixRt.\nOpen Scope bool_scope.\n\n"
+	}
 	jobs := []job{
 		{"internal/origins/origins.go", "origins", [][2]string{
 			{"isLowerAlpha", "go_isLowerAlpha"}, {"isSubsequentSchemeByte", "go_isSubsequentSchemeByte"}, {"isASCIILabelByte", "go_isASCIILabelByte"},
@@ -1462,7 +1602,7 @@ func main() {
 				if fd == nil {
 					fail(nil, "function %s not found in %s", f[0], j.file)
 				}
-				sb.WriteString(translate(j.pkg, fd, f[1]))
+				sb.WriteString(translate(j.pkg, fd, gn(f[1])))
 				sb.WriteString("\n")
 			}
 		}
@@ -1481,6 +1621,10 @@ func main() {
 	// ---- second file: internal/origins/pattern.go (needs the origins.go functions above) ----
 	headerPat := "(* GENERATED by tools/genloop from internal/origins/pattern.go on every run -- do not edit. *)\n" +
 		"Require Import Base.Bytes Gen.Tables Model.Util Model.Headers Model.Origins Model.Netip Model.Idna Model.Pattern Model.UtilRt Gen.UtilSrc Model.LoopRt Gen.LoopSrc Model.PatRt.\nOpen Scope bool_scope.\n\n"
+	if checked {
+		headerPat = "(* GENERATED by tools/genloop -checked from internal/origins/pattern.go on every run -- do not edit. *)\n" +
+			"Require Import Base.Bytes Gen.Tables Model.Util Model.Headers Model.Origins Model.Netip Model.Idna Model.Pattern Model.UtilRt Gen.UtilSrc Model.LoopRt Model.RadixRt Gen.LoopChk Model.PatRt.\nOpen Scope bool_scope.\n\n"
+	}
 	var sp strings.Builder
 	sp.WriteString(headerPat)
 	errPat := errMsg
@@ -1525,7 +1669,7 @@ func main() {
 				if fd == nil {
 					fail(nil, "function %s not found in pattern.go", f[0])
 				}
-				sp.WriteString(translate("origins", fd, f[1]))
+				sp.WriteString(translate("origins", fd, gn(f[1])))
 				sp.WriteString("\n")
 			}
 			sp.WriteString("End Oracles.\n")
